@@ -188,6 +188,13 @@ def run(ctx, report: Report) -> None:
             # `children = self.get_tag_descendants` indirection in match_future_child
             kw = [k for k in c.keywords if k.arg == 'no_iframe']
             val = unparse(kw[0].value) if kw else None
+            if kw and isinstance(kw[0].value, ast.Name):
+                # a local that holds the flag (`is_html = self.is_html`, assigned once)
+                defs = [st.value for st in ast.walk(fn) if isinstance(st, ast.Assign) and len(st.targets) == 1
+                        and isinstance(st.targets[0], ast.Name) and st.targets[0].id == kw[0].value.id]
+                stores = [x for x in ast.walk(fn) if isinstance(x, ast.Name) and x.id == kw[0].value.id and isinstance(x.ctx, ast.Store)]
+                if len(defs) == 1 and len(stores) == 1:
+                    val = unparse(defs[0])
             want = 'True' if short in const_true else by_flag[short]
             ok = val == want
             r2.instance({'function': short, 'call': unparse(c)[:70], 'no_iframe': val, 'expected': want}, key=f'{short}|{unparse(c)}')
